@@ -8,6 +8,7 @@
 //@ note P: iterations unbounded through loop contracts; buffer LENGTHS are bounded by -DNMAX (maxChars <= NMAX, srcCount <= 2*NMAX+1) because cbmc needs finite objects
 //@ note target model LP64 little-endian, sizeof(XMLCh) == sizeof(UTF16Ch) == 2: the non-swapped path is the memcpy branch (cbmc's built-in memcpy/memset models), the per-character conversion loop (loop 2) is compile-time dead but carries a contract all the same
 //@ note fSwapped == false means the source is UTF-16LE on this target, fSwapped == true UTF-16BE; the postcondition is stated on the source BYTES, so it is the decoding of D96/D97 (UTF-16BE/LE encoding schemes), not a restatement of swapBytes
+//@ note cbmc 6.11's built-in memcpy model loses the copy when the destination OBJECT has a non-char element type and the size is symbolic (probed: spurious failure, 12-line example); the harness therefore hands toFill as a pointer into a byte-typed object of 2*NMAX bytes (same object representation, all accesses still bounds-checked)
 #define VERIF_DEFINE_GHOSTS
 #include "verif_prelude.h"
 
@@ -68,7 +69,7 @@ __CPROVER_decreases(countToDo - index)
 @*/
 
 struct { XMLByte a[2 * NMAX + 1]; } SRC;
-struct { XMLCh a[NMAX]; } OUT;
+struct { XMLByte a[2 * NMAX]; } OUT;   /* byte-typed object, see note */
 struct { unsigned char a[NMAX]; } SZ;
 
 void h_utf16_from(void)
@@ -78,6 +79,6 @@ void h_utf16_from(void)
   VERIF_ASSUME(n <= 2 * NMAX + 1 && m <= NMAX);
   verif_thrown = 0;
   /* end-aligned: any access beyond srcCount / maxChars leaves the object */
-  XMLUTF16Transcoder_transcodeFrom(SRC.a + (2 * NMAX + 1 - n), n, OUT.a + (NMAX - m), m, &be, SZ.a + (NMAX - m));
+  XMLUTF16Transcoder_transcodeFrom(SRC.a + (2 * NMAX + 1 - n), n, (XMLCh *)(OUT.a + 2 * (NMAX - m)), m, &be, SZ.a + (NMAX - m));
   VERIF_CANARY("after call");
 }
